@@ -93,7 +93,8 @@ Proof. split; [reflexivity|differ_tac]. Qed.
 Theorem C02_unrestricted_refuted : ~ C02_statement_unrestricted.
 Proof.
   intros H. destruct C02_ws_nonatomic_refuted as (_ & Hg & Hv & Hd).
-  apply Hd. exact (H wcfg G_ws [] (nm "r0") (nm "x y") 60 Hg Hv).
+  unfold res_gen, res_vm in Hg, Hv, Hd.
+  pose proof (H wcfg G_ws [] (nm "r0") (nm "x y") 60) as X. cbv zeta in X. exact (Hd (X Hg Hv)).
 Qed.
 
 (* ---------- non-vacuity: a grammar in H with WHITESPACE, COMMENT, the four modifiers, stack operations,
